@@ -179,6 +179,60 @@ def check_selection_and_internal(report):
     ok = len(leaves) == 2 and len(listed) == 1 and ast.unparse(listed[0]) == "self" and len(other) == 1 and isinstance(other[0], ast.Call) \
         and any(k.arg == "is_internal" and ast.unparse(k.value) == "True" for k in other[0].keywords)
     r4.check(ok, wm.module.path, wm.node.lineno, "Method.with_internal_methods", "listed methods are returned unchanged; all others get is_internal=True")
+    # the containers: Service / Proto.with_internal_methods map EVERY member through the level below; an unchanged `self` may be
+    # returned only under a condition that implies nothing below changes (decided on finite models of the guard)
+    from ..pymodel import pmatch
+    from ..pyeval import Evaluator, UNKNOWN
+    import itertools
+    for qual, coll in (("gapic.schema.wrappers.Service.with_internal_methods", "methods"), ("gapic.schema.api.Proto.with_internal_methods", "services")):
+        f = m.func(qual)
+        r4.instance(qual.split("schema.")[1])
+        e = nreturn(m, f, keep={"replace", "with_internal_methods"})
+        r4.need(e is not None, qual, "does not reduce to one conditional expression")
+        mapped_pat = f"dataclasses.replace(self, {coll}={{_K_: _V_.with_internal_methods(public_methods=public_methods) for _K_, _V_ in self.{coll}.items()}})"
+        n_mapped = 0
+        for conds, leaf in decision_leaves(e):
+            txt = ast.unparse(leaf)
+            if pmatch(mapped_pat, leaf) is not None:
+                n_mapped += 1
+                continue
+            if isinstance(leaf, ast.Call) and ast.unparse(leaf.func).endswith("replace"):
+                r4.violation(f.module.path, f.node.lineno, f"{qual.split('.')[-2]}.with_internal_methods: {txt[:120]}",
+                             f"the copy must carry every entry of self.{coll}, each mapped through with_internal_methods(public_methods=public_methods)")
+                continue
+            r4.need(txt == "self", qual, f"unrecognised result `{txt[:80]}`")
+            if coll == "services":
+                # only the identity test on the mapped dict is accepted: all(<mapped>[k] is v for k, v in self.services.items())
+                ok = len(conds) == 1 and list(conds)[0][1] is True and pmatch(
+                    "all((_ANYM_[_K_] is _V_ for _K_, _V_ in self.services.items()))", ast.parse(list(conds)[0][0], mode="eval").body) is not None
+                if ok:
+                    b = pmatch("all((_ANYM_[_K_] is _V_ for _K_, _V_ in self.services.items()))", ast.parse(list(conds)[0][0], mode="eval").body)
+                    ok = pmatch("{_K_: _V_.with_internal_methods(public_methods=public_methods) for _K_, _V_ in self.services.items()}",
+                                ast.parse(b["_ANYM_"], mode="eval").body) is not None
+                r4.need(ok, qual, f"`return self` under {sorted(conds)}: cannot decide that no service changes")
+                continue
+            # Service level: every model in which the guard holds must have all its method names listed
+            names_all = ["p.S.A", "p.S.B"]
+            for k in range(len(names_all) + 1):
+                names = names_all[:k]
+                for public in itertools.chain.from_iterable(itertools.combinations(names_all + ["p.T.C"], j) for j in range(4)):
+                    env = {"self": {"methods": {n.split(".")[-1]: {"ident": {"proto": n}, "name": n.split(".")[-1]} for n in names}},
+                           "public_methods": frozenset(public)}
+                    ev = Evaluator(env)
+                    vals = []
+                    for ctext, pol in conds:
+                        v = ev.ev(ast.parse(ctext, mode="eval").body)
+                        r4.need(v is not UNKNOWN, qual, f"cannot evaluate the guard `{ctext[:100]}` of `return self` on a finite model")
+                        vals.append(bool(v) == pol)
+                    if all(vals) and not set(names) <= set(public):
+                        r4.violation(f.module.path, f.node.lineno, f"Service.with_internal_methods: return self under {sorted(conds)}",
+                                     f"the service is returned unmarked although it has unlisted methods (model: methods {names}, public_methods "
+                                     f"{sorted(public)}): those methods stay public instead of becoming internal")
+                        break
+                else:
+                    continue
+                break
+        r4.check(n_mapped >= 1, f.module.path, f.node.lineno, f"{qual.split('.')[-2]}.with_internal_methods", f"some path must map self.{coll} through with_internal_methods")
     cmn = m.func("gapic.schema.wrappers.Method.client_method_name")
     r4.instance("client_method_name")
     r4.check(nmatch(m, "make_private(_ANYN_) if self.is_internal else _ANYN_", cmn, keep={"make_private"}) is not None, cmn.module.path, cmn.node.lineno,
